@@ -52,6 +52,7 @@ class Post:
         self.lot_date, self.lot_note = None, None       # the written [date] and (note) of a lot: part of the commodity's identity
         self.indent, self.sep = '    ', None            # the written layout; sep None = four spaces and no line for the model
         self.lot_fixed = False                          # the lot price written {=PRICE}: a fixated price
+        self.mark = ''                                  # the state flag written before the account: '* ', '!', ... (with its white space)
 
     def must_balance(self):
         return self.kind != 'V'
@@ -71,7 +72,7 @@ class Post:
     def text(self):
         a = {'R': '%s', 'V': '(%s)', 'B': '[%s]'}[self.kind] % self.acct
         if self.amt is None:
-            return self.indent + a + (self.sep or '')
+            return self.indent + getattr(self, 'mark', '') + a + (self.sep or '')
         s = self.amt.text()
         if self.lot is not None:
             s += ' {%s%s}' % ('=' if getattr(self, 'lot_fixed', False) else '', self.lot.text())
@@ -82,7 +83,7 @@ class Post:
         if self.cost is not None:
             op = '@' if self.cost[0] == 'u' else '@@'
             s += ' %s ' % (('(%s)' % op) if getattr(self, 'vcost', False) else op) + self.cost[1].text()
-        return '%s%s%s%s' % (self.indent, a, self.sep or '    ', s)
+        return '%s%s%s%s%s' % (self.indent, getattr(self, 'mark', ''), a, self.sep or '    ', s)
 
     def sx(self):
         r = ['post', self.acct.encode(), self.kind,
@@ -112,7 +113,8 @@ class Xact:
         self.posts, self.date, self.tag = posts, date, tag
 
     def text(self, i):
-        return '\n'.join(['%s x%d' % (self.date, i)] + [p.text() for p in self.posts]) + '\n'
+        # head: what stands between the date and the payee - a state flag and/or a (code), e.g. '* (c1) '
+        return '\n'.join(['%s %sx%d' % (self.date, getattr(self, 'head', ''), i)] + [p.text() for p in self.posts]) + '\n'
 
     def sx(self):
         return ['xact'] + [p.sx() for p in self.posts]
@@ -290,7 +292,7 @@ def line_ranges(text):
     out, cur = [], None
     lines = text.split('\n')
     for n, l in enumerate(lines, 1):
-        m = re.match(r'\S+ x(\d+)$', l)
+        m = re.match(r'\S+ (?:[*!] *)?(?:\([^)]*\) )?x(\d+)$', l)
         if m:
             cur = [n, n, int(m.group(1))]
             out.append(cur)
@@ -320,7 +322,7 @@ def parse_errors(err, path, text=None):
             if pat in e.group(1):
                 cls = c
         idx = None
-        m = re.search(r'^> \S+ x(\d+)', block, re.M)
+        m = re.search(r'^> \S+ (?:[*!] *)?(?:\([^)]*\) )?x(\d+)', block, re.M)
         if m:
             idx = int(m.group(1))
         else:
